@@ -131,7 +131,9 @@ func StatsEndRPC(
 			BeginTime: beginTime,
 			EndTime:   time.Now(),
 		}
-		if appErr != nil && !errors.Is(appErr, io.EOF) {
+		// io.EOF only means a normal end on the client side; a server handler
+		// that returns io.EOF (e.g. `return err` after stream.Recv) has failed.
+		if appErr != nil && !(isClient && errors.Is(appErr, io.EOF)) {
 			end.Error = appErr
 		}
 		sh.HandleRPC(ctx, end)
